@@ -49,9 +49,14 @@ type Case struct {
 	W, H     int
 	OX, OY   int    `json:"-"`
 	Off      [2]int `json:"offset"`
-	K        int    `json:"scale_exponent"`
-	Alpha    bool   `json:"alpha_image"`
-	Src      bool   `json:"draw_op_src"`
+	// Origin: Bounds().Min of the larger image (sub-image windows and images
+	// with a negative origin are ordinary draw.Images).
+	Origin [2]int `json:"image_origin,omitempty"`
+	// Sheet: the same Renderer and rasteriser first render a tile elsewhere in the larger image.
+	Sheet bool `json:"sheet,omitempty"`
+	K     int  `json:"scale_exponent"`
+	Alpha bool `json:"alpha_image"`
+	Src   bool `json:"draw_op_src"`
 }
 
 func program(c Case) []ops.Op {
@@ -158,18 +163,35 @@ func checkPixels(c Case) error {
 
 	switch c.Relation {
 	case "offset":
-		big := image.Rect(0, 0, c.W+c.Off[0]+7, c.H+c.Off[1]+5)
-		target := own.Add(image.Pt(c.Off[0], c.Off[1]))
+		big := image.Rect(0, 0, c.W+c.Off[0]+7, c.H+c.Off[1]+5).Add(image.Pt(c.Origin[0], c.Origin[1]))
+		target := own.Add(image.Pt(c.Off[0]+c.Origin[0], c.Off[1]+c.Origin[1]))
 		img := newImage(c.Alpha, big, prefill)
 		z := vec.NewRasterizer(img)
-		z.DrawOp = op
-		renderTo(z, target, vb, pal, prog)
+		if c.Sheet {
+			// an earlier tile with the same Renderer and rasteriser, then the sheet is wiped again
+			var r render.Renderer
+			tile := image.Rect(big.Min.X, big.Min.Y, big.Min.X+5, big.Min.Y+4)
+			r.SetRasterizer(z, tile)
+			r.Reset(gen.VB(vb), pal)
+			r.StartPath(0, vb[0], vb[1])
+			r.AbsLineTo(vb[2], vb[1])
+			r.AbsLineTo(vb[2], vb[3])
+			r.ClosePathEndPath()
+			draw.Draw(img, big, image.NewUniform(prefill), image.Point{}, draw.Src)
+			z.DrawOp = op
+			r.SetRasterizer(z, target)
+			r.Reset(gen.VB(vb), pal)
+			ops.ApplyAll(&r, prog)
+		} else {
+			z.DrawOp = op
+			renderTo(z, target, vb, pal, prog)
+		}
 		for y := big.Min.Y; y < big.Max.Y; y++ {
 			for x := big.Min.X; x < big.Max.X; x++ {
 				got := img.At(x, y)
 				if image.Pt(x, y).In(target) {
-					if want := base.At(x-c.Off[0], y-c.Off[1]); got != want {
-						return harness.Violatef("c16/offset", "pixel (%d,%d) of the rectangle placed at offset %v is %v, drawn into its own image it is %v", x-c.Off[0], y-c.Off[1], c.Off, got, want)
+					if want := base.At(x-c.Off[0]-c.Origin[0], y-c.Off[1]-c.Origin[1]); got != want {
+						return harness.Violatef("c16/offset", "pixel (%d,%d) of the rectangle placed at offset %v in an image with origin %v is %v, drawn into its own image it is %v", x-c.Off[0]-c.Origin[0], y-c.Off[1]-c.Origin[1], c.Off, c.Origin, got, want)
 					}
 				} else if r, g, b, a := got.RGBA(); !samePrefill(c.Alpha, r, g, b, a) {
 					return harness.Violatef("c16/outside-modified", "pixel (%d,%d) outside the target rectangle %v was modified: %v", x, y, target, got)
@@ -387,6 +409,10 @@ func genCase(t *rapid.T) Case {
 	}
 	c.W, c.H = size("w"), size("h")
 	c.Off = [2]int{rapid.IntRange(0, 40).Draw(t, "ox"), rapid.IntRange(0, 40).Draw(t, "oy")}
+	if rapid.IntRange(0, 2).Draw(t, "imgorigin") == 0 {
+		c.Origin = [2]int{rapid.IntRange(-30, 30).Draw(t, "iox"), rapid.IntRange(-30, 30).Draw(t, "ioy")}
+	}
+	c.Sheet = rapid.IntRange(0, 2).Draw(t, "sheet") == 0
 	c.K = rapid.IntRange(-10, 10).Draw(t, "k")
 	if c.K == 0 {
 		c.K = 3
@@ -413,6 +439,12 @@ func TestPixelRelations(t *testing.T) {
 		}
 		if c.Src {
 			labels = append(labels, "DrawOp=Src")
+		}
+		if c.Relation == "offset" && (c.Origin[0] != 0 || c.Origin[1] != 0) {
+			labels = append(labels, "image-with-non-zero-origin")
+		}
+		if c.Relation == "offset" && c.Sheet {
+			labels = append(labels, "renderer-and-rasteriser-reused-for-a-second-tile")
 		}
 		for _, p := range c.Paths {
 			if p.Fill.Gradient {
